@@ -45,7 +45,9 @@ int rm_solve(const rmat *a, const rmat *b, rmat *x) {
   for (int c = 0; c < b->c; c++) {
     ld *y = malloc(sizeof(ld) * (size_t)(n + 1));
     for (int i = 0; i < n; i++) y[i] = RM(b, i, c);
-    for (int k = 0; k < n; k++) { if (piv[k] != k) { ld t = y[k]; y[k] = y[piv[k]]; y[piv[k]] = t; } for (int i = k + 1; i < n; i++) y[i] -= RM(lu, i, k) * y[k]; }
+    /* rm_lu exchanges full rows (multipliers included, LAPACK style): permute the right-hand side first */
+    for (int k = 0; k < n; k++) if (piv[k] != k) { ld t = y[k]; y[k] = y[piv[k]]; y[piv[k]] = t; }
+    for (int k = 0; k < n; k++) for (int i = k + 1; i < n; i++) y[i] -= RM(lu, i, k) * y[k];
     for (int i = n - 1; i >= 0; i--) { for (int j = i + 1; j < n; j++) y[i] -= RM(lu, i, j) * y[j]; y[i] /= RM(lu, i, i); }
     for (int i = 0; i < n; i++) RM(x, i, c) = y[i];
     free(y);
